@@ -34,12 +34,12 @@ CLAIMED = {
         "Integer for \\ MOD and the logical operators, 0 or -1 for relational ones); the only error of + - * on numbers is OVERFLOW between two "
         "Integers; conversion on assignment fails only with OVERFLOW / TYPE MISMATCH / STRING TOO LONG and otherwise has the target type; "
         "compiled expression code computes what the reference semantics prescribes; the expression parser builds the tree the table prescribes: for "
-        "every tree over identifiers, literals, unary minus, NOT and the binary operators, at every depth, parsing the tokens of its minimally "
+        "every tree over identifiers, literals, array elements / function calls, unary minus, NOT and the binary operators, at every depth, parsing the tokens of its minimally "
         "parenthesised rendering returns the tree (columns aside) and stops in front of what follows (Props/C02.v, Proofs/ParseExpr.v, C01).",
         "random and exhaustive (all operator pairs) expression trees rendered with the parentheses the manual's table requires must parse back "
         "to the tree; every operator x operand-type x boundary-value combination model vs crate and against the documented result type; "
         "typed assignment and literal typing against the manual's rules.",
-        "The parse theorem leaves out array / function-call arguments and unary plus, and says 'some fuel suffices' (the Rust parser has no fuel; that the "
+        "The parse theorem leaves out unary plus and DEF FN parameter renaming, and says 'some fuel suffices' (the Rust parser has no fuel; that the "
         "model's fuel formula suffices is differential); values of ^ with a non-Integer operand are compared by type (powf/powi are oracles); numeric "
         "functions and literal typing differential only.",
         "Coq theorems on operator typing and on the precedence-climbing parser + tree-rendering spec monitor and type-matrix differential check"),
@@ -169,12 +169,18 @@ CLAIMED = {
         "Coq lemmas on token aliases + spelling-variant relational check on the implementation"),
     "C17": entry(
         "a reply is cut exactly at the commas outside double quotes: joining the fields with commas gives the reply back, for every reply; n well-formed "
-        "fields joined by commas split into exactly those n fields; a reply without commas and quotes is one field (Props/C17.v).",
+        "fields joined by commas split into exactly those n fields; a reply without commas and quotes is one field; and the protocol, for every machine "
+        "state: the prompt event is the prompt text followed by '? ' with capitals off exactly for the leading-comma flag; a reply with the wrong field "
+        "count or over the length limit is refused as a whole (nothing changes but the state), reported as REDO FROM START, and the machine prompts again; an "
+        "accepted reply puts a return address under its fields without touching a variable; a field becomes a string (trimmed, one pair of quotes "
+        "removed) or a number (0 when empty); an error while storing cuts the stack back, returns to the INPUT statement and refuses the reply "
+        "(Props/C17.v, Proofs/Input.v, InputProto.v).",
         "INPUT statements of every shape answered with replies from a grammar on model and crate; an independent specification of splitting, trimming, "
         "unquoting and numeric conversion predicts the prompt, the capitalisation flag, acceptance with the stored values, or REDO FROM START followed "
         "by the same prompt.",
-        "Conversion of fields, the retry protocol and the capitalisation flag are decided by the monitor, not proved.",
-        "Coq theorems on field splitting + reply-grammar differential check with an input specification monitor"),
+        "The number syntax of a field (val_from_str against the manual) and that the compiled INPUT statement drives the proved steps in the documented "
+        "order are decided by the monitor, not proved.",
+        "Coq theorems on field splitting and on the prompt / accept / refuse / retry steps + reply-grammar differential check with an input specification monitor"),
     "C18": entry(
         "in every state reachable through the public API the value stack holds at most 65535 entries and its length field is exact (65536 only at the moment "
         "a push reports OUT OF MEMORY); the variable pool never exceeds 65536 entries, storing 0 or \"\" frees the slot; the code and DATA pools refuse the "
